@@ -232,7 +232,8 @@ func getECDSAAlgorithm(keySize int) httpsig.SignatureAlgorithm {
 		return httpsig.EcdsaP256Sha256
 	case 384: //nolint: mnd
 		return httpsig.EcdsaP384Sha384
-	case 512: //nolint: mnd
+	case 512, 521: //nolint: mnd
+		// the size of a key on the P-521 curve is 521 (not 512) bits
 		return httpsig.EcdsaP521Sha512
 	default:
 		panic(fmt.Sprintf("unsupported ECDSA key size: %d", keySize))
